@@ -374,8 +374,15 @@ def load_corpus():
     return out
 
 
-def run_cases(ctx, eng, model, cases, stats):
-    """all three phases for a list of cases; returns the records"""
+def run_cases(ctx, eng, model, cases, stats, chunk=600):
+    """all three phases for a list of cases, a chunk at a time (bounds the disk space in use); returns the records"""
+    out = []
+    for i in range(0, len(cases), chunk):
+        out.extend(run_chunk(ctx, eng, model, cases[i:i + chunk], stats))
+    return out
+
+
+def run_chunk(ctx, eng, model, cases, stats):
     rn = Runner(ctx, eng, model)
     mods = [f["mod"] for c in cases for f in c["files"] if f["kind"] == "mod"]
     eng.ensure_fixtures(mods)
